@@ -1,7 +1,7 @@
 (* run_cmd : the single entry point of the extracted model. A command is
    (L (A code :: args)); decoding and encoding are Gallina. *)
 From Coq Require Import List ZArith NArith Bool.
-From BS Require Import Base.Sexp Base.Types Base.Reader Model.Registry Model.SmartQuotes Model.Attrs Model.Heap Model.Edit Model.Build.
+From BS Require Import Base.Sexp Base.Types Base.Reader Model.Registry Model.SmartQuotes Model.Attrs Model.Heap Model.Edit Model.Build Model.Iter Spec.Tree.
 Import ListNotations.
 Open Scope Z_scope.
 
@@ -110,6 +110,8 @@ Definition s_cell (h : heap) (x : nat) : sexp :=
   L [s_kind (kind c); sbool (dead c); s_onat (par c); slist snat (kids c);
      s_onat (ps c); s_onat (ns c); s_onat (pe c); s_onat (ne c); sstr (txt c)].
 Definition s_state (s : st) : sexp := slist (s_cell (hp s)) (seq 0 (nxt s)).
+(* the state plus the verdict of the executable representation check (Spec/Tree.v) *)
+Definition s_state_chk (s : st) : sexp := L [s_state s; sbool (consistent_b (nxt s) (hp s))].
 Definition s_payload (p : payload) : sexp :=
   L [sstr (p_name p); sopt sstr (p_prefix p); sN (p_cls p); sbool (p_void p);
      slist (spair sstr sstr) (p_attrs p)].
@@ -159,8 +161,8 @@ Fixpoint run_ops (s : st) (ops : list sexp) : list sexp :=
   | [] => []
   | o :: ops' =>
       match run_op s o with
-      | Ok s' => L [A 0; s_state s'] :: run_ops s' ops'
-      | ValueError => L [A 1; s_state s] :: run_ops s ops'
+      | Ok s' => L [A 0; s_state s'; sbool (consistent_b (nxt s') (hp s'))] :: run_ops s' ops'
+      | ValueError => L [A 1; s_state s; sbool (consistent_b (nxt s) (hp s))] :: run_ops s ops'
       end
   end.
 (* (30 cfg events) -> final build state with payloads *)
@@ -174,7 +176,7 @@ Definition cmd_history (args : list sexp) : sexp :=
   match args with
   | c :: evs :: ops :: _ =>
       let b := feed (g_cfg c) (glist g_event evs) in
-      L (s_state (b_st b) :: run_ops (b_st b) (gL ops))
+      L (L [s_state (b_st b); sbool (consistent_b (nxt (b_st b)) (hp (b_st b)))] :: run_ops (b_st b) (gL ops))
   | _ => A (-1)
   end.
 
